@@ -72,10 +72,16 @@ Section C01.
     str_in (pe_backend p) (sv_backends sv) = true ->
     serve_nocache re_match re_replace ip_allow sv rq =
       match rewrite re_replace p (rq_path rq) with
-      | Some path' => Dispatched (pe_backend p) path'
+      | Some path' => if too_large sv p rq then Failed 413 else Dispatched (pe_backend p) path'
       | None => Panicked
       end.
   Proof. exact (dispatch_backend_and_path re_match re_replace ip_allow). Qed.
+
+  (** ... unless the client sends more body bytes than the effective limit (the path's
+      clientMaxBodySize, else the server's, else 4 MiB; negative = unlimited): 413 *)
+  Theorem C01_body_limit : forall sv p rq,
+    too_large sv p rq = true <-> (0 <= body_limit sv p < rq_body rq)%Z.
+  Proof. exact too_large_iff. Qed.
 
   (** a matched backend name that does not exist yields 503 *)
   Theorem C01_unknown_backend_503 : forall sv rq p,
@@ -123,7 +129,7 @@ Section C01.
 
   Theorem C01_mapper_history_dispatch : forall sv pre m rq p h path',
     search_nocache re_match ip_allow sv rq = Route p -> alookup (pe_backend p) m = Some h ->
-    rewrite re_replace p (rq_path rq) = Some path' ->
+    rewrite re_replace p (rq_path rq) = Some path' -> too_large sv p rq = false ->
     last (serve_hist re_match re_replace ip_allow sv (pre ++ [(m, rq)])%list) (Panicked, None)
       = (Dispatched (pe_backend p) path', Some h).
   Proof. exact (mapper_history_dispatch re_match re_replace ip_allow). Qed.
@@ -132,7 +138,7 @@ Section C01.
       alike and share the cache key *)
   Theorem C01_rawpath_irrelevant : forall sv a b,
     (rq_host a = rq_host b /\ rq_method a = rq_method b /\ rq_path a = rq_path b /\
-     rq_headers a = rq_headers b /\ rq_ip a = rq_ip b) ->
+     rq_headers a = rq_headers b /\ rq_ip a = rq_ip b /\ rq_body a = rq_body b) ->
     serve_nocache re_match re_replace ip_allow sv a = serve_nocache re_match re_replace ip_allow sv b /\
     (forall q, mk_key q a = mk_key q b).
   Proof. exact (rawpath_irrelevant re_match re_replace ip_allow). Qed.
@@ -146,6 +152,7 @@ Print Assumptions C01_rewrite_prefix.
 Print Assumptions C01_rewrite_regexp.
 Print Assumptions C01_rewrite_none.
 Print Assumptions C01_dispatch_backend_and_path.
+Print Assumptions C01_body_limit.
 Print Assumptions C01_unknown_backend_503.
 Print Assumptions C01_match_all_header_semantics.
 Print Assumptions C01_port_ignored.
@@ -162,7 +169,7 @@ Example C01_nonvacuous :
   let ipa (f : N) (ip : string) := negb (N.eqb f 7 && String.eqb ip "10.0.0.8") in
   let e pth pre rgx ms rw b hs :=
     {| pe_path := pth; pe_prefix := pre; pe_regexp := rgx; pe_methods := ms; pe_rewrite := rw;
-       pe_backend := b; pe_headers := hs; pe_match_all := false; pe_filter := None |} in
+       pe_backend := b; pe_headers := hs; pe_match_all := false; pe_filter := None; pe_body := (if String.eqb b "C" then 4 else 0)%Z |} in
   let sv := {| sv_filter := Some 7%N;
                sv_rules := [ {| ru_host := "a.com"; ru_host_re := ""; ru_filter := None;
                                 ru_paths := [ e "/a" "" "" ["GET"] "" "A" [ {| hc_key := "X"; hc_values := ["v1"]; hc_regexp := "" |} ];
@@ -170,15 +177,15 @@ Example C01_nonvacuous :
                                               e "" "/p/" "" [] "/q/" "C" [];
                                               e "" "" "^/r" [] "/s" "D" [];
                                               e "/h" "" "" [] "" "A" [ {| hc_key := "X"; hc_values := ["v1"]; hc_regexp := "" |} ] ] |} ];
-               sv_backends := ["A"; "B"; "C"] |} in
-  let rq h m p hs ip := {| rq_host := h; rq_method := m; rq_path := p; rq_rawpath := ""; rq_headers := hs; rq_ip := ip |} in
+               sv_backends := ["A"; "B"; "C"]; sv_body := 0%Z |} in
+  let rq h m p hs ip := {| rq_host := h; rq_method := m; rq_path := p; rq_rawpath := ""; rq_headers := hs; rq_ip := ip; rq_body := (if String.eqb m "PUT" then 3 else if String.eqb m "PATCH" then 5 else 0)%Z |} in
   valid_server sv = true /\
   map (serve_nocache re rep ipa sv)
       [ rq "a.com:80" "GET" "/a" [("X", "v1")] "1.1.1.1"; rq "a.com" "GET" "/a" [] "1.1.1.1";
-        rq "a.com" "PUT" "/p/x" [] "1.1.1.1"; rq "a.com" "GET" "/rr" [] "1.1.1.1";
+        rq "a.com" "PUT" "/p/x" [] "1.1.1.1"; rq "a.com" "PATCH" "/p/x" [] "1.1.1.1"; rq "a.com" "GET" "/rr" [] "1.1.1.1";
         rq "a.com" "GET" "/h" [] "1.1.1.1"; rq "a.com" "POST" "/a" [] "1.1.1.1";
         rq "a.com" "GET" "/zz" [] "1.1.1.1"; rq "b.com" "GET" "/a" [] "1.1.1.1";
         rq "a.com" "GET" "/a" [] "10.0.0.8" ]
-  = [ Dispatched "A" "/a"; Dispatched "B" "/new"; Dispatched "C" "/q/x"; Failed 503;
+  = [ Dispatched "A" "/a"; Dispatched "B" "/new"; Dispatched "C" "/q/x"; Failed 413; Failed 503;
       Failed 400; Failed 405; Failed 404; Failed 404; Failed 403 ].
 Proof. vm_compute. split; reflexivity. Qed.
